@@ -47,24 +47,28 @@ def step (line : String) : String :=
   | ["rfc850", y, m, d, h, i, s] => toHex (Dt.rfc850Date ⟨y.toNat!, m.toNat!, d.toNat!, h.toNat!, i.toNat!, s.toNat!⟩)
   | ["asctime", y, m, d, h, i, s] => toHex (Dt.asctimeDate ⟨y.toNat!, m.toNat!, d.toNat!, h.toNat!, i.toNat!, s.toNat!⟩)
   | ["wsgi", sch, host, sname, sport, script, path, strip, qs, fwd, xfp, xfh, codes] =>
-    let e : Ru.Wsgi := { urlScheme := fromHex sch, httpHost := optS host, serverName := fromHex sname, serverPort := fromHex sport,
-      scriptName := optS script, rawPath := fromHex path, stripSlash := strip == "1", queryString := optS qs, forwarded := optS fwd,
-      xfProto := optS xfp, xfHost := optS xfh }
+    let e : Ru.Wsgi :=
+      { urlScheme := fromHex sch, httpHost := optS host, serverName := fromHex sname, serverPort := fromHex sport,
+        scriptName := optS script, rawPath := fromHex path, stripSlash := strip == "1", queryString := optS qs, forwarded := optS fwd,
+        xfProto := optS xfp, xfHost := optS xfh }
     runAttrs e.core codes
   | ["asgi", sch, ws, host, sname, sport, root, path, strip, qs, fwd, xfp, xfh, codes] =>
-    let a : Ru.Asgi := { schemeOpt := optS sch, websocket := ws == "1", hostHeader := optS host,
-      server := (if sname == "none" then none else some (fromHex sname, sport.toInt!)), rootPathOpt := optS root, rawPath := fromHex path,
-      stripSlash := strip == "1", queryString := fromHex qs, forwarded := optS fwd, xfProto := optS xfp, xfHost := optS xfh }
+    let a : Ru.Asgi :=
+      { schemeOpt := optS sch, websocket := ws == "1", hostHeader := optS host,
+        server := (if sname == "none" then none else some (fromHex sname, sport.toInt!)), rootPathOpt := optS root, rawPath := fromHex path,
+        stripSlash := strip == "1", queryString := fromHex qs, forwarded := optS fwd, xfProto := optS xfp, xfHost := optS xfh }
     runAttrs a.core codes
   | ["wsgifw", sch, host, sname, sport, fwd, xfp, xfh, cell] =>   -- the class's own forwarded_scheme / forwarded_host transcriptions
-    let e : Ru.Wsgi := { urlScheme := fromHex sch, httpHost := optS host, serverName := fromHex sname, serverPort := fromHex sport,
-      scriptName := none, rawPath := [], stripSlash := false, queryString := none, forwarded := optS fwd, xfProto := optS xfp, xfHost := optS xfh }
+    let e : Ru.Wsgi :=
+      { urlScheme := fromHex sch, httpHost := optS host, serverName := fromHex sname, serverPort := fromHex sport,
+        scriptName := none, rawPath := [], stripSlash := false, queryString := none, forwarded := optS fwd, xfProto := optS xfp, xfHost := optS xfh }
     let fl := if cell == "1" then e.forwarded.map Fw.parseForwarded else none
     toHex (e.forwardedSchemeOf fl) ++ " " ++ toHex (e.forwardedHostOf fl)
   | ["asgifw", sch, ws, host, sname, sport, fwd, xfp, xfh, cell] =>
-    let a : Ru.Asgi := { schemeOpt := optS sch, websocket := ws == "1", hostHeader := optS host,
-      server := (if sname == "none" then none else some (fromHex sname, sport.toInt!)), rootPathOpt := none, rawPath := [],
-      stripSlash := false, queryString := [], forwarded := optS fwd, xfProto := optS xfp, xfHost := optS xfh }
+    let a : Ru.Asgi :=
+      { schemeOpt := optS sch, websocket := ws == "1", hostHeader := optS host,
+        server := (if sname == "none" then none else some (fromHex sname, sport.toInt!)), rootPathOpt := none, rawPath := [],
+        stripSlash := false, queryString := [], forwarded := optS fwd, xfProto := optS xfp, xfHost := optS xfh }
     let fl := if cell == "1" then a.forwarded.map Fw.parseForwarded else none
     toHex (a.forwardedSchemeOf fl) ++ " " ++ toHex (a.forwardedHostOf fl)
   | _ => "bad-op"
